@@ -30,6 +30,7 @@ func c19M6Roles(r *core.R, m *c19Model, tsFld *types.Var) {
 			continue
 		}
 		c19M6Caller(r, m, s, tsFld)
+		c19M6Newest(r, m, s, tsFld)
 		if s.finder != nil {
 			c19M6Finder(r, m, s, tsFld)
 		}
@@ -138,6 +139,13 @@ func c19M6Finder(r *core.R, m *c19Model, s *c19Search, tsFld *types.Var) {
 		r.Unknown(cUp, F.Decl.Pos(), "probe not found in the control-flow graph")
 		r.Unknown(cLow, F.Decl.Pos(), "see %s", cUp)
 		return
+	}
+	if base := m.resultVar(parentsOf(r.P, F), s.fFetch); base != nil {
+		if x, at := m.staleCopy(F, s.fFetch, base, s.fS); x != nil {
+			r.Bad(cLow, at.Pos(), "`%s` reads %s, which holds the state probed in this iteration only on some paths (it is assigned from %s conditionally): after a probe that found no file it still holds the state of an earlier iteration, and that state is classified and returned as if it had just been probed", src(fs, at), x.Name(), base.Name())
+			r.Unknown(cUp, at.Pos(), "see %s", cLow)
+			return
+		}
 	}
 	ops := &c19TimeOps{m: m, fi: F, tVar: s.fT, sVars: s.fS, tsFld: tsFld}
 	found := m.nilAtom(s.fS, false)
